@@ -714,11 +714,23 @@ def c11_tree(rng, depth, unsupported, place_bad):
     return node
 
 
-def c11_to_ast(t):
+C11_FLAVOURS = ("name", "true", "one", "zero", "none", "and", "not", "compare")
+
+
+def c11_test_expr(flavour):
+    """What stands for a test / iterable: the front end's outcome must not depend on it."""
+    import ast
+
+    src = {"name": "c", "true": "True", "one": "1", "zero": "0", "none": "None", "and": "c and d",
+           "not": "not c", "compare": "c < 3"}[flavour]
+    return ast.parse(src, mode="eval").body
+
+
+def c11_to_ast(t, flavour="name"):
     import ast
 
     k, slots = t
-    sub = {f: [c11_to_ast(c) for c in l] for f, l in slots.items()}
+    sub = {f: [c11_to_ast(c, flavour) for c in l] for f, l in slots.items()}
     name = lambda s, ctx=None: ast.Name(id=s, ctx=ctx or ast.Load())  # noqa: E731
     if k == "FunctionDef":
         return ast.FunctionDef(name="g", args=ast.arguments(posonlyargs=[], args=[], kwonlyargs=[], kw_defaults=[],
@@ -735,9 +747,9 @@ def c11_to_ast(t):
     if k in ("Pass", "Break", "Continue"):
         return getattr(ast, k)(lineno=1, col_offset=0)
     if k == "If":
-        return ast.If(test=name("c"), body=sub.get("body", []), orelse=sub.get("orelse", []), lineno=1, col_offset=0)
+        return ast.If(test=c11_test_expr(flavour), body=sub.get("body", []), orelse=sub.get("orelse", []), lineno=1, col_offset=0)
     if k == "While":
-        return ast.While(test=name("c"), body=sub.get("body", []), orelse=sub.get("orelse", []), lineno=1, col_offset=0)
+        return ast.While(test=c11_test_expr(flavour), body=sub.get("body", []), orelse=sub.get("orelse", []), lineno=1, col_offset=0)
     if k == "For":
         return ast.For(target=name("i", ast.Store()), iter=name("x"), body=sub.get("body", []),
                        orelse=sub.get("orelse", []), lineno=1, col_offset=0)
@@ -753,11 +765,13 @@ def c11_coq(t):
         "(%s, %s)" % (coqeval.coq_str(f), coqeval.coq_list(c11_coq(c) for c in l)) for f, l in slots.items()))
 
 
-def c11_run_impl(top):
+def c11_run_impl1(top, flavour):
+    import ast
+
     from numba_scfg.core.datastructures.ast_transforms import AST2SCFGTransformer
 
     try:
-        AST2SCFGTransformer([c11_to_ast(t) for t in top]).transform_to_ASTCFG()
+        AST2SCFGTransformer([ast.fix_missing_locations(c11_to_ast(t, flavour)) for t in top]).transform_to_ASTCFG()
         return "SOk"
     except NotImplementedError:
         return "SNotImplemented"
@@ -765,6 +779,17 @@ def c11_run_impl(top):
         return "SAssertion"
     except Exception as e:
         return "other:" + type(e).__name__
+
+
+def c11_run_impl(top):
+    """The outcome with plain names as tests; if another kind of test expression changes it,
+    that outcome, marked (the statement skeleton is the same, so the model's answer is)."""
+    base = c11_run_impl1(top, "name")
+    for fl in C11_FLAVOURS[1:]:
+        r = c11_run_impl1(top, fl)
+        if r != base:
+            return "%s (with tests of flavour %r; %s with plain names)" % (r, fl, base)
+    return base
 
 
 def check_c11(pid, tier, build, props):
@@ -783,6 +808,9 @@ def check_c11(pid, tier, build, props):
         "if-else": lambda b: [("If", {"body": [("Pass", {})], "orelse": [b]}), ("Return", {})],
         "loop-body": lambda b: [("While", {"body": [b], "orelse": []}), ("Return", {})],
         "loop-else": lambda b: [("For", {"body": [("Pass", {})], "orelse": [b]}), ("Return", {})],
+        "while-else": lambda b: [("While", {"body": [("Pass", {})], "orelse": [b]}), ("Return", {})],
+        "while-break-else": lambda b: [("While", {"body": [("If", {"body": [("Break", {})], "orelse": []})],
+                                                  "orelse": [b]}), ("Return", {})],
         "after-loop": lambda b: [("While", {"body": [("Pass", {})], "orelse": []}), b, ("Return", {})],
         "nested-3": lambda b: [("For", {"body": [("If", {"body": [("While", {"body": [b], "orelse": []})],
                                                          "orelse": []})], "orelse": []}), ("Return", {})],
